@@ -55,6 +55,14 @@ def harnesses(tier):
     for gz in (0, 1):
         hs.append({"id": "nodes-defaultindex/unstable/%s/q1" % ("bgzf" if gz else "text"),
                    "params": {"kind": "nodes", "form": "unstable", "gz": gz, "fmt": None, "qlen": 1, "default_index": True}, "timeout": 600})
+    for fmt in (None, "conv"):
+        hs.append({"id": "nodes/unstable/text/%s/q1/no-final-newline" % (fmt or "asis"), "params": {"kind": "nodes", "form": "unstable", "gz": 0, "fmt": fmt, "qlen": 1, "nonl": True},
+                   "timeout": 600})
+    # the records go through the real GAF reader (GAF.__init__, read_line, parse_gaf_line) instead of the reader stub
+    for form in ("unstable", "stable"):
+        for gz in (0, 1):
+            hs.append({"id": "nodes-real-reader/%s/%s/asis/q1" % (form, "bgzf" if gz else "text"),
+                       "params": {"kind": "nodes", "form": form, "gz": gz, "fmt": None, "qlen": 1, "real_reader": True, "nonl": not gz}, "timeout": 900})
     hs.append({"id": "noindex/error", "params": {"kind": "noindex", "form": "unstable", "gz": 0}, "timeout": 300})
     for form in ("unstable", "stable"):
         for gz in (0, 1):
@@ -121,7 +129,13 @@ def build(params):
             except C.CommandLineError:
                 return None
             return "view -n without an index did not report the missing index"
-        idx, lines = F.run_index(recs, cookies, gz=bool(params["gz"]), default_path=bool(params.get("default_index")))
+        F.NONL[0] = bool(params.get("nonl"))
+        F.REAL_READER[0] = bool(params.get("real_reader"))
+        try:
+            idx, lines = F.run_index(recs, cookies, gz=bool(params["gz"]), default_path=bool(params.get("default_index")))
+        finally:
+            F.NONL[0] = False
+            F.REAL_READER[0] = False
         if params["kind"] == "whole":
             V.run("in.gaf", output="o.gaf")
             out = e.files["o.gaf"].lines
@@ -189,7 +203,9 @@ def replay(params, model, wd):
     nums = [(a[2 * i], a[2 * i + 1]) for i in range(n)]
     recs = F.records_for(form, WALKS, nums)
     F.GFA_ORDER[0] = list(reversed(list(F.LAY))) if params.get("revorder") else None
+    F.NONL[0] = bool(params.get("nonl"))
     gfa, gaf, lines = F.write_real(wd, recs, gz=bool(params["gz"]))
+    F.NONL[0] = False
     try:
         I.run(gaf, gfa)
     except BaseException as e:  # noqa
@@ -247,4 +263,9 @@ def replay(params, model, wd):
         for l, i in zip(got, want):
             if l != allout[i]:
                 return {"reproduced": True, "key": "C04:convert-vs-select", "what": "record r%d: select+convert %r, convert whole file %r" % (i, l, allout[i]), "files": files}
-    return {"reproduced": False, "detail": "view -n output matches", "files": files}
+    if params["gz"] and fmt is None:
+        # offsets of a compressed file only differ from stream positions beyond the first BGZF block
+        big = F.big_bgzf_view(wd, recs, query)
+        if big:
+            return {"reproduced": True, "key": "C04:multi-block-bgzf", "what": big, "files": files}
+    return {"reproduced": False, "detail": "view -n output matches" + (" (also on a multi-block BGZF file)" if params["gz"] else ""), "files": files}
